@@ -96,6 +96,8 @@ def draw_op(draw, T, vals, families=None):
         return {"op": f, "name": draw(st.sampled_from(["int64", "float64", "int32", "float32", "uint8", "bool", "complex128"]))}
     if f == "fillna":
         return {"op": f, "value": draw(st.sampled_from([0, 1, -1, 2.5]))}
+    if f == "optconvert":
+        return {"op": f, "how": draw(st.sampled_from(["toIndexedOptionArray64", "toByteMaskedArray", "simplify", "bytemask", "project", "deep_copy"]))}
     return {"op": f}
 
 
@@ -152,6 +154,14 @@ def apply_op(layout, spec):
     if op == "fillna":
         v = spec["value"]
         return layout.fillna(L.NumpyArray(np.array([v])))
+    if op == "optconvert":
+        how = spec["how"]
+        if how in ("toIndexedOptionArray64", "toByteMaskedArray", "bytemask", "project") and not hasattr(layout, how):
+            how = "simplify"
+        out = getattr(layout, how)()
+        if how == "bytemask":
+            return [bool(x) for x in np.asarray(out).tolist()]
+        return out
     if op == "getitem_nothing":
         return layout.getitem_nothing()
     if op == "purelist":
